@@ -38,6 +38,7 @@ def known_f08(ctx, results):
 
 UNPUT_THEOREMS = ['FlexVerif.C08Unput.' + t for t in ('shiftUp_get', 'copy_loop', 'unput_shape', 'unput_noshift', 'unput_shift',
                                                       'unput_overflow', 'unput_spec')]
+UNPUT_THEOREMS += ['FlexVerif.C08UnputC99.' + t for t in ('unput99_shape', 'tail_rel', 'unput_rel', 'unput99_spec')]
 
 
 YYLESS_THEOREMS = ['FlexVerif.C08YYLess.' + t for t in ('ln_loop', 'less_action_spec', 'less_section3_spec', 'both_definitions_agree')]
@@ -72,15 +73,18 @@ def regen_unput():
     flex, src = flexrun.build_flex()
     try:
         body, info = gen_unput.generate(flex, flexrun.scratch_root())
+        body99, info99 = gen_unput.generate_c99(flex, flexrun.scratch_root())
     except gen_unput.TranslateError as e:
         return None, str(e)
-    path = os.path.join(common.LEAN_DIR, 'FlexVerif', 'Gen', 'Unput.lean')
+    files = [(os.path.join(common.LEAN_DIR, 'FlexVerif', 'Gen', 'Unput.lean'), body),
+             (os.path.join(common.LEAN_DIR, 'FlexVerif', 'Gen', 'UnputC99.lean'), body99)]
     lock = open(os.path.join(common.LEAN_DIR, '.build.lock'), 'w')
     fcntl.flock(lock, fcntl.LOCK_EX)
     try:
-        old = open(path).read() if os.path.exists(path) else ''
-        if old != body:
-            open(path, 'w').write(body)
+        for path, text in files:
+            old = open(path).read() if os.path.exists(path) else ''
+            if old != text:
+                open(path, 'w').write(text)
     finally:
         fcntl.flock(lock, fcntl.LOCK_UN)
         lock.close()
